@@ -655,6 +655,14 @@ class Emitter:
                 if j >= len(body) or body[j] != ";":
                     raise Inconclusive(f"lost anchor: {fnq}: statement end after /{h.anchor}/ not found")
                 body = body[:j + 1] + "\n" + h.text + "\n" + body[j + 1:]
+            elif h.where == "after_block":
+                # after the `{ .. }` block that follows the anchor (an `if` / `if let` statement
+                # without `else`)
+                j = body.find("{", m.end())
+                if j < 0:
+                    raise Inconclusive(f"lost anchor: {fnq}: block after /{h.anchor}/ not found")
+                j = match_close(body, j)
+                body = body[:j + 1] + "\n" + h.text + "\n" + body[j + 1:]
             elif h.where == "before":
                 j = body.rfind("\n", 0, m.start())
                 body = body[:j + 1] + h.text + "\n" + body[j + 1:]
